@@ -167,6 +167,7 @@ class Interp:
         self.path = path
         self.frames = []
         self.heap = {}
+        self.summary_ids = set()
         self.pc = []
         self.ghost = {}
         self.locks = []
@@ -286,7 +287,8 @@ class Interp:
     def _sync(self, solver, ids_attr):
         """make the solver's assertion stack equal to axioms + path condition, one scope per
         assertion, popping back to the common prefix instead of resetting"""
-        want = self.pc + self.axioms
+        skip = getattr(self, 'summary_ids', None)
+        want = [p for p in self.pc if p.get_id() not in skip] + self.axioms if skip else self.pc + self.axioms
         ids = [p.get_id() for p in want]
         have = getattr(self, ids_attr)
         n = 0
@@ -425,13 +427,19 @@ class Interp:
             return False
         return self.choose([c, z3.Not(c)], why) == 0
 
-    def assume(self, cond):
+    def assume(self, cond, summary=False):
+        """summary: a quantified summary fact (comprehension / loop summary).  It is part of the path condition of
+        every obligation but is left out of the feasibility queries, which only prune paths (leaving a fact out
+        there can only keep an infeasible path alive, whose obligations then hold trivially)"""
         c = self.refine(cond)
         if z3.is_false(c):
             raise PathEnd('assumption false')
         if not z3.is_true(c):
             self.pc.append(c)
-            self.learn(c)
+            if summary:
+                self.summary_ids.add(c.get_id())
+            else:
+                self.learn(c)
 
     def kind_hint(self, ty):
         if not ty:
